@@ -6,6 +6,7 @@ Oracle: vlib/refs/idl_builtins.py - direct transcriptions of the IDL definitions
 math.fsum, sorted-window medians, run scanning, exact integer pixel positions + long double / integer
 interval arithmetic for REBIN).
 """
+import copy
 import numpy as np
 from vlib.harness import Check, np_rng
 from vlib.refs import idl_builtins as R
@@ -60,6 +61,84 @@ def _ints(rng, n, dtype, style=None):
     return [min(max(int(v), lo), hi) for v in a]
 
 
+# Memory layouts / flags under which the same values are presented to the functions.  The property is about
+# values, so every layout must give the result of the C-contiguous native-endian copy (and the reference).
+LAYOUTS_1D = ('step2', 'step3off1', 'column', 'reversed', 'readonly', 'bigendian', 'readonly_step2',
+              'bigendian_column', 'bigendian_reversed')
+LAYOUTS_ND = ('fortran', 'transposed', 'strided', 'reversed', 'readonly', 'bigendian', 'bigendian_fortran',
+              'readonly_strided', 'bigendian_transposed')
+
+
+def _junk(shape, dtype):
+    """filler for the gaps of a strided base array: values unrelated to the data, valid in every dtype"""
+    n = _prod(shape)
+    if np.dtype(dtype).kind == 'f':
+        a = (np.arange(n) * 1.37 + 1000.5) * np.where(np.arange(n) % 2, -1.0, 1.0)
+    else:
+        a = (np.arange(n) * 37 + 11) % 100
+    return a.astype(dtype).reshape(shape)
+
+
+def _layout(a, layout):
+    """(view, base): `view` holds exactly the values of the C-contiguous array `a` but lives in memory as
+    described by `layout`; `base` owns the memory (incl. the filler between the samples of a strided view)."""
+    a = np.ascontiguousarray(a)
+    parts = layout.split('_')
+    geo = [q for q in parts if q not in ('readonly', 'bigendian', 'contig')]
+    geo = geo[0] if geo else None
+    dt = a.dtype.newbyteorder('>') if 'bigendian' in parts else a.dtype
+    nd = a.ndim
+    n = a.shape[0]
+    if geo in ('step2', 'step3off1', 'column') and nd != 1:
+        geo = 'strided'
+    if geo is None or (geo in ('fortran', 'transposed') and nd == 1):
+        base = a.astype(dt)
+        sl = lambda b: b
+    elif geo == 'step2':
+        base = _junk((2 * n,), dt)
+        sl = lambda b: b[::2]
+    elif geo == 'step3off1':
+        base = _junk((3 * n + 1,), dt)
+        sl = lambda b: b[1::3]
+    elif geo == 'column':
+        base = _junk((n, 3), dt)
+        sl = lambda b: b[:, 1]
+    elif geo == 'strided':
+        base = _junk(tuple(2 * v + 1 for v in a.shape), dt)
+        sl = lambda b: b[(slice(1, None, 2),) * nd]
+    elif geo == 'reversed':
+        base = np.ascontiguousarray(a[(slice(None, None, -1),) * nd]).astype(dt)
+        sl = lambda b: b[(slice(None, None, -1),) * nd]
+    elif geo == 'fortran':
+        base = np.asfortranarray(a.astype(dt))
+        sl = lambda b: b
+    elif geo == 'transposed':
+        perm = tuple(range(1, nd)) + (0,)
+        inv = tuple(int(v) for v in np.argsort(perm))
+        base = np.ascontiguousarray(a.transpose(perm)).astype(dt)
+        sl = lambda b: b.transpose(inv)
+    else:
+        raise KeyError(layout)
+    if geo in ('step2', 'step3off1', 'column', 'strided'):
+        sl(base)[...] = a
+    if 'readonly' in parts:
+        base.setflags(write=False)
+    view = sl(base)
+    if view.shape != a.shape or not np.array_equal(view, a):
+        raise AssertionError('layout helper broke the values (%s)' % layout)
+    return view, base
+
+
+def _pick_layout(rng, nd):
+    if rng.random() < 0.4:
+        return 'contig'
+    return rng.choice(LAYOUTS_1D if nd == 1 else LAYOUTS_ND)
+
+
+def _same_kind(d1, d2):
+    return d1.kind == d2.kind and d1.itemsize == d2.itemsize
+
+
 def _first_bad(mask):
     idx = np.argwhere(mask)
     return [int(v) for v in idx[0]] if len(idx) else None
@@ -76,7 +155,14 @@ class C14(Check):
             'expand/keep/shrink combinations cycled by index, factors /2../8 and x2..x64, float64/float32/'
             'six integer dtypes (full-range values), sample on/off, all (d0<40, factor<70) pairs whose '
             'floating-point pixel position is fragile, a 1-D (d0, factor) grid, and non-integral factors / rank '
-            'changes that must raise ValueError.  Non-trivial: smooth with made-odd width >= 3 that changes a '
+            'changes that must raise ValueError.  Every array (and uniq index) is presented, in 60 % of the cases, not as '
+            'a fresh C-contiguous array but as a view/flag variant holding the same values: y[::2], y[1::3], a column of a '
+            '2-D array, reversed views, Fortran-ordered / transposed / every-other-element 2-D and 3-D arrays, read-only and '
+            'big-endian arrays and combinations; the result must meet the reference, equal the result for the contiguous '
+            'copy, and the input memory (incl. the filler between strided samples) must be byte-identical afterwards.  '
+            'stale_sequence: 2-4 calls inside one case sharing sizes (rebin: the same (n0, n) pair on any axis/rank with '
+            'sample and interpolating calls in both orders; smooth/median/running median: same n and width with flags, dtype '
+            'and data changed; uniq with and without index), each call judged by the same oracle.  Non-trivial: smooth with made-odd width >= 3 that changes a '
             'point, median/uniq on >= 2 elements (running: at least one interior point), rebin with at least '
             'one axis resized or a refusal; distinct by hash of the materialised input.')
     ASSUMPTIONS = ['float results: |got-ref| <= tol * magnitude, tol 1e-12 (float64) / 1e-4 (float32); magnitude = '
@@ -88,7 +174,12 @@ class C14(Check):
                    'domain: finite values, widths <= N (the made-odd width may be N+1), odd median widths <= smallest '
                    'dimension, requested dimensions >= 1, |int64 data| <= 2^40',
                    'uniq with an index on a constant array is read literally: the subscript of the last element in '
-                   'index order (index[n-1]), not n-1']
+                   'index order (index[n-1]), not n-1 (open known finding F-I3)',
+                   'layout consistency: identical values for medians, uniq, sample picks and integer rebin; float means / '
+                   'interpolation within 2*tol*magnitude (numpy may sum strided and contiguous data in another order); '
+                   'result dtype of rebin compared by kind and item size (byte order not demanded)',
+                   'median(x, width) on a big-endian 1-D array is refused by scipy.signal.medfilt with ValueError: counted '
+                   '(run1d_bigendian_refused_by_scipy_medfilt) and left undecided, a returned value would be judged']
     REQUIRED_COUNTERS = ('smooth_interior_points', 'smooth_edge_untouched_points', 'smooth_edge_truncated_points',
                          'smooth_width_made_odd', 'median_even_upper', 'median_even_mean', 'median_odd',
                          'run1d_interior_points', 'run2d_interior_points', 'run_edge_points',
@@ -96,7 +187,22 @@ class C14(Check):
                          'uniq_index_calls', 'rebin_lerp_fractional_positions', 'rebin_positions_exactly_on_a_sample',
                          'rebin_block_means', 'rebin_sample_calls', 'rebin_sample_fragile_pairs',
                          'rebin_mixed_expand_and_shrink', 'rebin_integer_dtype_cases',
-                         'rebin_valueerror_nonintegral', 'rebin_valueerror_rank')
+                         'rebin_valueerror_nonintegral', 'rebin_valueerror_rank',
+                         # same values under other memory layouts / flags / byte orders
+                         'smooth_noncontiguous_interior_points', 'smooth_noncontiguous_edge_truncated_points',
+                         'median_noncontiguous_calls', 'run1d_noncontiguous_interior_points',
+                         'run2d_noncontiguous_interior_points', 'uniq_noncontiguous_calls',
+                         'rebin_noncontiguous_resized_calls', 'readonly_inputs', 'bigendian_inputs',
+                         'layout_smooth_step2', 'layout_smooth_column', 'layout_smooth_reversed',
+                         'layout_rebin_fortran', 'layout_rebin_transposed', 'layout_rebin_strided',
+                         'layout_run2d_fortran', 'layout_run2d_strided', 'layout_uniqindex_step2',
+                         'input_preservation_checks', 'layout_consistency_checks',
+                         # state that could go stale between calls of one process
+                         'sequence_rebin_sample_after_interpolation_same_pair',
+                         'sequence_rebin_interpolation_after_sample_same_pair',
+                         'rebin_sample_after_interpolation_same_pair_in_process',
+                         'rebin_interpolation_after_sample_same_pair_in_process',
+                         'sequence_cases_smooth', 'sequence_cases_median', 'sequence_cases_run', 'sequence_cases_uniq')
     REQUIRED_REACH = {'smooth.smooth': 0.95, 'uniq.uniq': 0.95, 'rebin.rebin': 0.95, 'median.median': 0.85}
     QUICK_SHARDS = 4
 
@@ -109,6 +215,7 @@ class C14(Check):
             self.rec.wrap(pydl, n, label='pydl.' + n)
         self._fragile = None
         self._maxerr = {}
+        self._pair_hist = {}
 
     def teardown(self):
         self.rec.unwrap_all()
@@ -148,10 +255,27 @@ class C14(Check):
             'rebin_fragile': 4 * nf if q else 24 * nf,
             'rebin_grid1d': 1000 if q else 39 * 69 * 2,
             'rebin_reject': 1200 if q else 12000,
+            'stale_sequence': 1800 if q else 24000,
         }
 
     # ------------------------------------------------------------------ generators
     def gen(self, cls, rng, i):
+        if cls == 'stale_sequence':
+            return self._gen_sequence(rng, i)
+        case = self._gen_base(cls, rng, i)
+        self._add_layout(case, rng)
+        return case
+
+    def _add_layout(self, case, rng):
+        """same values, other memory layout / flags / byte order (see LAYOUTS_*)"""
+        if case['fn'] == 'rebin_reject':
+            return case
+        case['layout'] = _pick_layout(rng, len(case['shape']) if 'shape' in case else 1)
+        if case['fn'] == 'uniq' and case.get('index') is not None:
+            case['ilayout'] = _pick_layout(rng, 1)
+        return case
+
+    def _gen_base(self, cls, rng, i):
         N = 64 if self.tier == 'quick' else 160          # thorough: longer arrays, larger 2-D images
         N2 = 10 if self.tier == 'quick' else 16
         if cls in ('smooth_plain', 'smooth_trunc'):
@@ -287,6 +411,62 @@ class C14(Check):
                 index = index[r:] + index[:r]
         return {'fn': 'uniq', 'dtype': dt, 'x': x, 'index': index, 'idtype': rng.choice(['i8', 'i8', 'i4'])}
 
+    # -- several calls in ONE case (one process, fixed order): exposes state kept between calls (caches keyed
+    #    by sizes, tables modified in place, module-level scratch arrays); replays reproduce the whole sequence
+    def _gen_sequence(self, rng, i):
+        kind = ['rebin', 'rebin', 'smooth', 'median', 'run', 'uniq'][i % 6]
+        calls = []
+        if kind == 'rebin':
+            if rng.random() < 0.3:
+                n0, fac = rng.choice(self.fragile())
+                if n0 * fac > 600:
+                    n0, fac = rng.randint(1, 8), rng.randint(2, 9)
+            else:
+                n0, fac = rng.randint(1, 10), rng.choice([2, 2, 3, 4, 5, 7, 8, 16])
+            pattern = ['SI', 'IS', 'SIS', 'ISI', 'SSI', 'IIS', 'SISI'][(i // 6) % 7]
+            for ch in pattern:
+                nd = rng.choice([1, 1, 2, 3])
+                k = rng.randrange(nd)
+                shape, d = [], []
+                for ax in range(nd):
+                    if ax == k:
+                        shape.append(n0)
+                        d.append(n0 * fac)
+                        continue
+                    base = rng.randint(1, 4)
+                    m = rng.choice(MODES)
+                    f = rng.randint(2, 4)
+                    shape.append(base * f if m == 'S' else base)
+                    d.append(base * f if m == 'E' else base)
+                dt = rng.choice(['f8', 'f8', 'f4', 'i4', 'u1', 'i2'])
+                x = _ints(rng, _prod(shape), dt) if dt[0] in 'iu' else _floats(rng, _prod(shape), dt, 'normal')
+                calls.append(self._add_layout({'fn': 'rebin', 'dtype': dt, 'shape': shape, 'd': d, 'modes': '',
+                                               'sample': ch == 'S', 'x': x}, rng))
+            return {'fn': 'sequence', 'kind': kind, 'pair': [n0, n0 * fac], 'calls': calls}
+        sub = {'smooth': rng.choice(['smooth_plain', 'smooth_trunc']), 'median': 'median_whole',
+               'run': rng.choice(['median_run1d', 'median_run2d']), 'uniq': 'uniq_index'}[kind]
+        first = self._add_layout(self._gen_base(sub, rng, i), rng)
+        calls.append(first)
+        for _ in range(rng.randint(1, 3)):
+            c = copy.deepcopy(calls[-1])
+            if c['fn'] == 'uniq':
+                if c['index'] is not None and rng.random() < 0.6:
+                    c['x'] = [c['x'][j] for j in c['index']]         # the sorted array itself, no index
+                    c['index'] = None
+                    c.pop('ilayout', None)
+                else:
+                    c = copy.deepcopy(first)
+            else:
+                if rng.random() < 0.3:
+                    c['dtype'] = 'f4' if c['dtype'] == 'f8' else 'f8'
+                c['x'] = _floats(rng, len(c['x']), c['dtype'])       # same sizes / widths, other data
+                if c['fn'] == 'smooth' and rng.random() < 0.6:
+                    c['trunc'] = not c['trunc']
+                if c['fn'] == 'median' and rng.random() < 0.6:
+                    c['even'] = not c['even']
+            calls.append(self._add_layout(c, rng))
+        return {'fn': 'sequence', 'kind': kind, 'calls': calls}
+
     def _factor(self, rng):
         m = rng.random()
         if m < 0.55:
@@ -375,15 +555,74 @@ class C14(Check):
     def run(self, case, out):
         getattr(self, '_run_' + case['fn'])(case, out)
 
+    def _run_sequence(self, case, out):
+        seen = {}
+        for sub in case['calls']:
+            getattr(self, '_run_' + sub['fn'])(sub, out)
+            if sub['fn'] == 'rebin':
+                for n0, n in zip(sub['shape'], sub['d']):
+                    if n > n0:
+                        prev = seen.setdefault((n0, n), set())
+                        if sub['sample'] and 'I' in prev:
+                            out.count('sequence_rebin_sample_after_interpolation_same_pair')
+                        if not sub['sample'] and 'S' in prev:
+                            out.count('sequence_rebin_interpolation_after_sample_same_pair')
+                        prev.add('S' if sub['sample'] else 'I')
+        out.count('sequence_cases_' + case['kind'])
+        out.count('sequence_calls', len(case['calls']))
+        out.nontrivial = True
+        out.info = {'kind': case['kind'], 'calls': len(case['calls'])}
+
+    # -- the same values under another memory layout / flag / byte order
+    def _present(self, out, fn, x, layout):
+        """returns (array to pass, base array owning the memory, snapshot of the base)"""
+        xv, base = _layout(x, layout or 'contig')
+        out.count('layout_%s_%s' % (fn, layout or 'contig'))
+        if not xv.flags.c_contiguous:
+            out.count('noncontiguous_inputs')
+        if not xv.flags.writeable:
+            out.count('readonly_inputs')
+        if xv.dtype.byteorder == '>':
+            out.count('bigendian_inputs')
+        return xv, base, base.tobytes()
+
+    def _unmodified(self, out, fn, layout, base, snap, what='input'):
+        out.expect(base.tobytes() == snap, fn + '-input-modified',
+                   'the %s array (layout %s) or the memory around it was modified by the call' % (what, layout))
+        out.count('input_preservation_checks')
+
+    def _consistent(self, out, fn, layout, r, r2, allowed=None):
+        """result for the laid-out input vs result for the C-contiguous native copy of the same values;
+        allowed=None: identical values; else array/scalar of permitted absolute differences"""
+        out.count('layout_consistency_checks')
+        a, b = np.asarray(r), np.asarray(r2)
+        if not out.expect(a.shape == b.shape, fn + '-layout-consistency',
+                          'layout %s: result shape %r, contiguous copy gives %r' % (layout, a.shape, b.shape)):
+            return
+        if allowed is None:
+            bad = a != b
+        else:
+            bad = ~(np.abs(a.astype(np.longdouble) - b.astype(np.longdouble)) <= allowed)
+        bad = np.atleast_1d(bad)
+        i = _first_bad(bad)
+        out.expect(i is None, fn + '-layout-consistency',
+                   'layout %s: same values give another result than their contiguous copy, first at %s: %r vs %r' % (
+                       layout, i, np.atleast_1d(a)[tuple(i)].item() if i else None,
+                       np.atleast_1d(b)[tuple(i)].item() if i else None))
+
     def _run_smooth(self, case, out):
         dt = case['dtype']
-        x = np.array(case['x'], dtype=dt)
-        x0 = x.copy()
+        x0 = np.array(case['x'], dtype=dt)
+        lay = case.get('layout', 'contig')
+        x, base, snap = self._present(out, 'smooth', x0, lay)
         w = case['w']
-        if case['trunc']:
-            r = self.P.smooth(x, w, edge_truncate=True) if case['kwform'] else self.P.smooth(x, w, True)
-        else:
-            r = self.P.smooth(x, w, edge_truncate=False) if case['kwform'] else self.P.smooth(x, w)
+
+        def call(arr):
+            if case['trunc']:
+                return self.P.smooth(arr, w, edge_truncate=True) if case['kwform'] else self.P.smooth(arr, w, True)
+            return self.P.smooth(arr, w, edge_truncate=False) if case['kwform'] else self.P.smooth(arr, w)
+        r = call(x)
+        self._unmodified(out, 'smooth', lay, base, snap)
         if not out.expect(isinstance(r, np.ndarray) and r.shape == x0.shape, 'smooth-shape',
                           'result is not an array of the input shape', got=getattr(r, 'shape', None)):
             return
@@ -397,16 +636,16 @@ class C14(Check):
             nk[k] += 1
             if k == 'same':
                 out.expect(g == v, 'smooth-edge-untouched',
-                           'point %d of %d (width %d) must be left untouched: got %r, input %r' % (i, len(val), w, g, v),
-                           i=i)
+                           'point %d of %d (width %d, layout %s) must be left untouched: got %r, input %r' % (
+                               i, len(val), w, lay, g, v), i=i)
             else:
                 err = abs(g - v)
                 ok = err <= tol * s
                 if s > 0:
                     self._err('smooth_' + dt, err / s)
                 out.expect(ok, 'smooth-interior' if k == 'interior' else 'smooth-edge-truncate',
-                           'point %d of %d (width %d -> %d, %s): got %r, window mean %r' % (
-                               i, len(val), w, R.odd_width(w), k, g, v), i=i, err=err, scale=s)
+                           'point %d of %d (width %d -> %d, %s, layout %s): got %r, window mean %r' % (
+                               i, len(val), w, R.odd_width(w), k, lay, g, v), i=i, err=err, scale=s)
         W = R.odd_width(w)
         if W >= 3:
             out.count('smooth_interior_points', nk['interior'])
@@ -414,38 +653,56 @@ class C14(Check):
             out.count('smooth_edge_truncated_points', nk['edge'])
             if W > len(val):
                 out.count('smooth_made_odd_width_exceeds_n')
+            if not x.flags.c_contiguous:
+                out.count('smooth_noncontiguous_interior_points', nk['interior'])
+                out.count('smooth_noncontiguous_edge_truncated_points', nk['edge'])
+        if lay != 'contig':
+            self._consistent(out, 'smooth', lay, r, call(x0.copy()), allowed=2 * tol * np.array(scale))
         out.nontrivial = W >= 3 and (nk['interior'] + nk['edge']) > 0
-        out.info['n'], out.info['width'] = len(val), W
+        out.info['n'], out.info['width'], out.info['layout'] = len(val), W, lay
 
     def _run_median(self, case, out):
         dt = case['dtype']
-        x = np.array(case['x'], dtype=dt).reshape(case['shape'])
-        r = self.P.median(x, even=True) if case['even'] else self.P.median(x)
-        exp, how, (lo, hi) = R.median_ref([float(v) for v in x.ravel()], case['even'])
+        x0 = np.array(case['x'], dtype=dt).reshape(case['shape'])
+        lay = case.get('layout', 'contig')
+        x, base, snap = self._present(out, 'median', x0, lay)
+
+        def call(arr):
+            return self.P.median(arr, even=True) if case['even'] else self.P.median(arr)
+        r = call(x)
+        self._unmodified(out, 'median', lay, base, snap)
+        exp, how, (lo, hi) = R.median_ref([float(v) for v in x0.ravel()], case['even'])
         if not out.expect(np.ndim(r) == 0, 'median-scalar', 'whole-array median is not a scalar', got=repr(r)[:200]):
             return
         g = float(r)
+        mag = max(abs(lo), abs(hi))
         if how == 'even-mean':
-            mag = max(abs(lo), abs(hi))
             err = abs(g - exp)
             if mag > 0:
                 self._err('median_even_' + dt, err / mag)
             out.expect(err <= TOL[dt] * mag, 'median-even-mean',
-                       'even count with even=True: got %r, mean of middle values (%r, %r) = %r' % (g, lo, hi, exp))
+                       'even count with even=True (layout %s): got %r, mean of middle values (%r, %r) = %r' % (
+                           lay, g, lo, hi, exp))
             out.count('median_even_mean')
             if lo != hi:
                 out.count('median_even_mean_distinct_middle')
         elif how == 'even-upper':
             out.expect(g == exp, 'median-even-upper',
-                       'even count: got %r, IDL median is the upper middle element %r (lower %r)' % (g, hi, lo))
+                       'even count (layout %s): got %r, IDL median is the upper middle element %r (lower %r)' % (
+                           lay, g, hi, lo))
             out.count('median_even_upper')
             if lo != hi:
                 out.count('median_even_upper_distinct_middle')
         else:
-            out.expect(g == exp, 'median-odd', 'odd count: got %r, middle element %r' % (g, exp))
+            out.expect(g == exp, 'median-odd', 'odd count (layout %s): got %r, middle element %r' % (lay, g, exp))
             out.count('median_odd')
-        out.nontrivial = x.size >= 2
-        out.info['n'], out.info['how'] = int(x.size), how
+        if not x.flags.c_contiguous and x0.size >= 2:
+            out.count('median_noncontiguous_calls')
+        if lay != 'contig':
+            self._consistent(out, 'median', lay, r, call(x0.copy()),
+                             allowed=2 * TOL[dt] * mag if how == 'even-mean' else None)
+        out.nontrivial = x0.size >= 2
+        out.info['n'], out.info['how'], out.info['layout'] = int(x0.size), how, lay
 
     def _cmp_running(self, out, r, x0, exp, inner, tag, w):
         if not out.expect(isinstance(r, np.ndarray) and r.shape == x0.shape, tag + '-shape',
@@ -465,37 +722,69 @@ class C14(Check):
         return int(m.sum())
 
     def _run_run1d(self, case, out):
-        x = np.array(case['x'], dtype=case['dtype'])
-        x0 = x.copy()
-        r = self.P.median(x, case['w'])
+        x0 = np.array(case['x'], dtype=case['dtype'])
+        lay = case.get('layout', 'contig')
+        x, base, snap = self._present(out, 'run1d', x0, lay)
+        try:
+            r = self.P.median(x, case['w'])
+        except ValueError as e:
+            # scipy.signal.medfilt refuses non-native byte order outright ("dtype=>f8 is not supported by
+            # medfilt"): a loud refusal by the collaborator, not a wrong value; recorded, not judged here
+            if x.dtype.byteorder == '>' and 'not supported by medfilt' in str(e):
+                out.count('run1d_bigendian_refused_by_scipy_medfilt')
+                out.undecide(1)
+                self._unmodified(out, 'run1d', lay, base, snap)
+                return
+            raise
+        self._unmodified(out, 'run1d', lay, base, snap)
         exp, inner = R.running_median_1d([float(v) for v in x0], case['w'])
         n = self._cmp_running(out, r, x0, exp, inner, 'run1d', case['w'])
         out.count('run1d_interior_points', n)
         if case['w'] >= 3 and n:
             out.count('run1d_width_ge3_cases')
+        if not x.flags.c_contiguous and case['w'] >= 3:
+            out.count('run1d_noncontiguous_interior_points', n)
+        if lay != 'contig':
+            self._consistent(out, 'run1d', lay, r, self.P.median(x0.copy(), case['w']))
         out.nontrivial = n > 0 and x0.size >= 2
-        out.info['n'], out.info['w'] = int(x0.size), case['w']
+        out.info['n'], out.info['w'], out.info['layout'] = int(x0.size), case['w'], lay
 
     def _run_run2d(self, case, out):
-        x = np.array(case['x'], dtype=case['dtype']).reshape(case['shape'])
-        x0 = x.copy()
+        x0 = np.array(case['x'], dtype=case['dtype']).reshape(case['shape'])
+        lay = case.get('layout', 'contig')
+        x, base, snap = self._present(out, 'run2d', x0, lay)
         r = self.P.median(x, width=case['w'])
+        self._unmodified(out, 'run2d', lay, base, snap)
         exp, inner = R.running_median_2d([[float(v) for v in row] for row in x0], case['w'])
         n = self._cmp_running(out, r, x0, exp, inner, 'run2d', case['w'])
         out.count('run2d_interior_points', n)
         if case['shape'][0] != case['shape'][1] and case['w'] >= 3:
             out.count('run2d_nonsquare_width_ge3')
+        if not x.flags.c_contiguous and case['w'] >= 3:
+            out.count('run2d_noncontiguous_interior_points', n)
+        if lay != 'contig':
+            self._consistent(out, 'run2d', lay, r, self.P.median(x0.copy(), width=case['w']))
         out.nontrivial = n > 0 and x0.size >= 2
-        out.info['shape'], out.info['w'] = case['shape'], case['w']
+        out.info['shape'], out.info['w'], out.info['layout'] = case['shape'], case['w'], lay
 
     def _run_uniq(self, case, out):
-        x = np.array(case['x'], dtype=case['dtype'])
+        x0 = np.array(case['x'], dtype=case['dtype'])
+        lay = case.get('layout', 'contig')
+        x, base, snap = self._present(out, 'uniq', x0, lay)
         idx = case['index']
         if idx is None:
             r = self.P.uniq(x)
+            r2 = self.P.uniq(x0.copy()) if lay != 'contig' else None
+            ilay = 'contig'
         else:
-            r = self.P.uniq(x, np.array(idx, dtype=case['idtype']))
+            i0 = np.array(idx, dtype=case['idtype'])
+            ilay = case.get('ilayout', 'contig')
+            iv, ibase, isnap = self._present(out, 'uniqindex', i0, ilay)
+            r = self.P.uniq(x, iv)
+            self._unmodified(out, 'uniq', ilay, ibase, isnap, 'index')
+            r2 = self.P.uniq(x0.copy(), i0.copy()) if (lay != 'contig' or ilay != 'contig') else None
             out.count('uniq_index_calls')
+        self._unmodified(out, 'uniq', lay, base, snap)
         exp = R.uniq_ref(case['x'], idx)
         ok = isinstance(r, np.ndarray) and r.ndim == 1 and r.dtype.kind in 'iu'
         if not out.expect(ok, 'uniq-type', 'result is not a 1-D integer array', got=repr(r)[:200]):
@@ -505,8 +794,8 @@ class C14(Check):
         const = len(exp) == 1
         clause = 'uniq-sorted' if idx is None else ('uniq-index-constant' if const else 'uniq-index')
         out.expect(got == exp, clause,
-                   'subscripts of the last element of each run: got %r expected %r' % (got[:20], exp[:20]),
-                   x=case['x'], index=idx)
+                   'subscripts of the last element of each run (layout %s/%s): got %r expected %r' % (
+                       lay, ilay, got[:20], exp[:20]), x=case['x'], index=idx)
         if const:
             out.count('uniq_constant_arrays')
             if idx is not None and idx[-1] != n - 1:
@@ -514,29 +803,49 @@ class C14(Check):
         if len(exp) < n:
             out.count('uniq_runs_longer_than_1')
         out.count('uniq_runs', len(exp))
+        if n >= 2 and not (x.flags.c_contiguous and (idx is None or iv.flags.c_contiguous)):
+            out.count('uniq_noncontiguous_calls')
+        if r2 is not None:
+            self._consistent(out, 'uniq', lay + '/' + ilay, r, r2)
         out.nontrivial = n >= 2
-        out.info['n'], out.info['runs'] = n, len(exp)
+        out.info['n'], out.info['runs'], out.info['layout'] = n, len(exp), lay + '/' + ilay
 
     def _run_rebin(self, case, out):
         dt = case['dtype']
-        x = np.array(case['x'], dtype=dt).reshape(case['shape'])
-        x0 = x.copy()
+        x0 = np.array(case['x'], dtype=dt).reshape(case['shape'])
+        lay = case.get('layout', 'contig')
+        x, base, snap = self._present(out, 'rebin', x0, lay)
         d = tuple(int(v) for v in case['d'])
         sample = case['sample']
-        r = self.P.rebin(x, d, sample=True) if sample else self.P.rebin(x, d)
+
+        def call(arr):
+            return self.P.rebin(arr, d, sample=True) if sample else self.P.rebin(arr, d)
+        r = call(x)
+        self._unmodified(out, 'rebin', lay, base, snap)
+        # order of sample / interpolating calls per enlarged (n0, n) pair within this process (evidence that
+        # state left behind by one kind of call would be met by the other kind; verdicts do not depend on it)
+        for n0, n in zip(x0.shape, d):
+            if n > n0:
+                prev = self._pair_hist.setdefault((n0, n), set())
+                if sample and 'I' in prev:
+                    out.count('rebin_sample_after_interpolation_same_pair_in_process')
+                if not sample and 'S' in prev:
+                    out.count('rebin_interpolation_after_sample_same_pair_in_process')
+                prev.add('S' if sample else 'I')
         ok = out.expect(isinstance(r, np.ndarray) and tuple(r.shape) == d, 'rebin-shape',
                         'result shape %r is not the requested %r' % (getattr(r, 'shape', None), d))
         if not ok:
             return
-        out.expect(r.dtype == x0.dtype, 'rebin-dtype', 'result dtype %s, input dtype %s' % (r.dtype, x0.dtype))
+        out.expect(_same_kind(r.dtype, x.dtype), 'rebin-dtype', 'result dtype %s, input dtype %s' % (r.dtype, x.dtype))
         plans = [R.axis_plan(x0.shape[k], d[k], sample) for k in range(x0.ndim)]
         if sample:
             exp = R.rebin_pick_ref(x0, d)
             bad = np.asarray(r) != exp
             b = _first_bad(bad)
             out.expect(b is None, 'rebin-sample',
-                       'sample=True must pick input pixel floor(i*d0/d) on every axis: first wrong element %s got %r expected %r'
-                       % (b, r[tuple(b)].item() if b else None, exp[tuple(b)].item() if b else None), shape=case['shape'], d=list(d))
+                       'sample=True must pick input pixel floor(i*d0/d) on every axis (layout %s): first wrong element %s got %r expected %r'
+                       % (lay, b, r[tuple(b)].item() if b else None, exp[tuple(b)].item() if b else None),
+                       shape=case['shape'], d=list(d))
             out.count('rebin_sample_calls')
             if case.get('fragile'):
                 out.count('rebin_sample_fragile_pairs')
@@ -545,28 +854,31 @@ class C14(Check):
                     out.count('rebin_sample_expand_axes')
                 elif d[k] < x0.shape[k]:
                     out.count('rebin_sample_shrink_axes')
+            allowed = None
         elif dt[0] == 'f':
             ref = R.rebin_float_ref(x0, d, False)
             mag = float(np.max(np.abs(x0))) if x0.size else 0.0
-            err = np.abs(np.asarray(r, dtype=np.longdouble) - ref)
+            err = np.abs(np.asarray(r).astype(np.longdouble) - ref)
             if mag > 0:
                 self._err('rebin_' + dt, float(err.max()) / mag)
             bad = ~(err <= TOL[dt] * mag)
             b = _first_bad(bad)
             out.expect(b is None, 'rebin-float',
-                       'first element off by more than %g*max|x|: %s got %r expected %r' % (
-                           TOL[dt], b, r[tuple(b)].item() if b else None, float(ref[tuple(b)]) if b else None),
+                       'first element off by more than %g*max|x| (layout %s): %s got %r expected %r' % (
+                           TOL[dt], lay, b, r[tuple(b)].item() if b else None, float(ref[tuple(b)]) if b else None),
                        shape=case['shape'], d=list(d), max_err=float(err.max()), magnitude=mag)
+            allowed = 2 * TOL[dt] * mag
         else:
             lo, hi = R.rebin_int_bounds(x0, d)
             ro = np.asarray(r).astype(object)
             bad = np.array(ro < lo, dtype=bool) | np.array(ro > hi, dtype=bool)
             b = _first_bad(bad)
             out.expect(b is None, 'rebin-integer',
-                       'first element farther than 1 from the exact value: %s got %r allowed [%r, %r]' % (
-                           b, r[tuple(b)].item() if b else None, lo[tuple(b)] if b else None, hi[tuple(b)] if b else None),
-                       shape=case['shape'], d=list(d), dtype=dt)
+                       'first element farther than 1 from the exact value (layout %s): %s got %r allowed [%r, %r]' % (
+                           lay, b, r[tuple(b)].item() if b else None, lo[tuple(b)] if b else None,
+                           hi[tuple(b)] if b else None), shape=case['shape'], d=list(d), dtype=dt)
             out.count('rebin_integer_elements_with_point_interval', int(np.array(lo == hi, dtype=bool).sum()))
+            allowed = None          # identical element-wise arithmetic whatever the layout
         if dt[0] in 'iu':
             out.count('rebin_integer_dtype_cases')
         if not sample:
@@ -579,8 +891,12 @@ class C14(Check):
         out.count('rebin_combo_' + modes)
         if 'E' in modes and 'S' in modes:
             out.count('rebin_mixed_expand_and_shrink')
+        if not x.flags.c_contiguous and modes.strip('K'):
+            out.count('rebin_noncontiguous_resized_calls')
+        if lay != 'contig':
+            self._consistent(out, 'rebin', lay, r, call(x0.copy()), allowed=allowed)
         out.nontrivial = modes.strip('K') != ''
-        out.info['modes'], out.info['shape'], out.info['d'] = modes, case['shape'], list(d)
+        out.info['modes'], out.info['shape'], out.info['d'], out.info['layout'] = modes, case['shape'], list(d), lay
 
     def _run_rebin_reject(self, case, out):
         dt = case['dtype']
